@@ -105,3 +105,167 @@ end AITB.Gen.C14
 
 
 GENERATORS = [gen_c14]
+
+
+# ---------------------------------------------------------------------------------------------------------------
+# Pinned source sites (round 3).  Every function of the anchored files (and of the helpers one call level below them:
+# Utils/Core.hpp, Utils/Probability.hpp, MDP/QLearning.cpp, Factored/MDP/Utils.cpp) that a definition of
+# AITB.Model.Factored / FactoredAlg / FactoredMdp transcribes, as the comment-free, whitespace-free text of the whole
+# definition (header + body).  The expected texts live in tools/extract_c14_sites.json (part of the framework, written
+# once with `python3 tools/extract_c14.py --pin` after reading the code against the model; never at check time).
+# A definition that is missing or whose text differs means the model no longer transcribes the code: ExtractError
+# (broken tie; the harness still runs and looks for a failing input).  The three sites whose FORM is read by gen_c14
+# (minusEqual's sign, the resize argument of dot/plus/minus, the zeroing of agentNormRews_) are masked / left to it.
+import json, os, sys
+
+SITES_JSON = os.path.join(os.path.dirname(os.path.abspath(__file__)), 'extract_c14_sites.json')
+
+# .cpp files: every namespace-level function definition is pinned, except the names listed in SKIP (not modelled / read by gen_c14)
+CPP_FILES = {
+    'src/Factored/Utils/Core.cpp': [],
+    'src/Factored/Utils/FactoredMatrix.cpp': [],
+    'src/Factored/Utils/FactoredVectorOps.cpp': ['FactoredVector&minusEqual(constFactors&space,FactoredVector&retval,constBasisFunction&basis,boolclearZero)'],
+    'src/Factored/Utils/FactoredMatrix2DOps.cpp': [],
+    'src/Factored/Utils/BayesianNetwork.cpp': [],
+    'src/Factored/MDP/Utils.cpp': [],
+    'src/Factored/MDP/CooperativeModel.cpp': ['::setDiscount('],
+    # setters / argument guards are C06's subject, rule-map construction is C20's: not transcribed by the C14 model
+    'src/Factored/MDP/Algorithms/JointActionLearner.cpp': ['::setDiscount(', '::setLearningRate('],
+    'src/Factored/MDP/Algorithms/CooperativeQLearning.cpp': ['CooperativeQLearning::CooperativeQLearning(', '::setDiscount(', '::setLearningRate(', '::setQFunction('],
+    'src/Factored/MDP/Algorithms/SparseCooperativeQLearning.cpp': ['initMap(', 'SparseCooperativeQLearning::SparseCooperativeQLearning(', '::setDiscount(', '::setLearningRate('],
+    'src/MDP/Algorithms/QLearning.cpp': ['QLearning::QLearning(', '::setDiscount(', '::setLearningRate(', '::setQFunction('],
+}
+# header files: named definitions found by a header regex
+HPP_SITES = [
+    ('include/AIToolbox/Factored/Utils/Core.hpp', 'toFactorsPartial(It)', r'template\s*<\s*typename\s+It\s*>\s*void\s+toFactorsPartial\s*\([^)]*\)\s*\{'),
+    ('include/AIToolbox/Utils/Core.hpp', 'checkEqualSmall(double,double)', r'inline\s+bool\s+checkEqualSmall\s*\(\s*const\s+double\s+a\s*,\s*const\s+double\s+b\s*\)\s*\{'),
+    ('include/AIToolbox/Utils/Core.hpp', 'checkDifferentSmall(double,double)', r'inline\s+bool\s+checkDifferentSmall\s*\(\s*const\s+double\s+a\s*,\s*const\s+double\s+b\s*\)\s*\{'),
+    ('include/AIToolbox/Utils/Core.hpp', 'checkEqualGeneral(double,double)', r'inline\s+bool\s+checkEqualGeneral\s*\(\s*const\s+double\s+a\s*,\s*const\s+double\s+b\s*\)\s*\{'),
+    ('include/AIToolbox/Utils/Core.hpp', 'checkEqualGeneral(V,double)', r'bool\s+checkEqualGeneral\s*\(\s*const\s+V\s*&\s*v\s*,\s*const\s+double\s+d\s*\)\s*\{'),
+    ('include/AIToolbox/Utils/Core.hpp', 'veccmp', r'std::strong_ordering\s+veccmp\s*\([^)]*\)\s*\{'),
+    ('include/AIToolbox/Utils/Core.hpp', 'sequential_sorted_contains(V,V)', r'bool\s+sequential_sorted_contains\s*\(\s*const\s+V\s*&\s*v\s*,\s*const\s+V\s*&\s*elems\s*\)\s*\{'),
+    ('include/AIToolbox/Utils/Probability.hpp', 'isProbability(size,row)', r'bool\s+isProbability\s*\(\s*const\s+size_t\s+size\s*,\s*const\s+T\s*&\s*in\s*\)\s*\{'),
+    ('include/AIToolbox/Factored/Bandit/FlattenedModel.hpp', 'FlattenedModel::FlattenedModel', r'FlattenedModel<Dist>::FlattenedModel\s*\([^)]*\)\s*:[^{]*\{'),
+    ('include/AIToolbox/Factored/Bandit/FlattenedModel.hpp', 'FlattenedModel::sampleR', r'double\s+FlattenedModel<Dist>::sampleR\s*\([^)]*\)\s*const\s*\{'),
+]
+MASKS = [  # (file, regex on the normalised text, replacement): forms that gen_c14 reads and the model is parameterised by
+    ('src/Factored/Utils/FactoredVectorOps.cpp', r'retval\.values\.resize\((?:toIndexPartial\(retval\.tag,space,space\)|factorSpacePartial\(retval\.tag,space\))\);', 'retval.values.resize(<ALLOC>);'),
+]
+
+
+def cpp_definitions(src):
+    """namespace-level function definitions of a comment-free .cpp text: [(normalised header, normalised header+body, line)]"""
+    out, depth, i, n = [], 0, 0, len(src)
+    ns_depth = 0          # braces opened by `namespace … {`
+    start = 0             # start of the current namespace-level declaration
+    while i < n:
+        c = src[i]
+        if c == '"':
+            j = i + 1
+            while j < n and src[j] != '"':
+                j += 2 if src[j] == '\\' else 1
+            i = j + 1; continue
+        if c == '{':
+            if depth == ns_depth and src[:i].rstrip()[-1:] in ('(', ','):
+                # a brace-initialiser inside a constructor's member-initialiser list, not a body: step over it
+                d, j = 0, i
+                while j < n:
+                    if src[j] == '{':
+                        d += 1
+                    elif src[j] == '}':
+                        d -= 1
+                        if d == 0:
+                            break
+                    j += 1
+                i = j + 1; continue
+            if depth == ns_depth:
+                head = src[start:i]
+                if re.search(r'\bnamespace\b[^;{}()]*$', head):
+                    ns_depth += 1; depth += 1; start = i + 1; i += 1; continue
+                # a definition: find its matching brace
+                d, j = 0, i
+                while j < n:
+                    if src[j] == '"':
+                        k = j + 1
+                        while k < n and src[k] != '"':
+                            k += 2 if src[k] == '\\' else 1
+                        j = k
+                    elif src[j] == '{':
+                        d += 1
+                    elif src[j] == '}':
+                        d -= 1
+                        if d == 0:
+                            break
+                    j += 1
+                if '(' in head:
+                    out.append((norm(head), norm(src[start:j + 1]), E.lineno(src, start + len(head) - len(head.lstrip()))))
+                i = j + 1; start = i; continue
+            depth += 1
+        elif c == '}':
+            depth -= 1
+            if depth < ns_depth:
+                ns_depth = depth
+            start = i + 1
+        elif c == ';' and depth == ns_depth:
+            start = i + 1
+        i += 1
+    return out
+
+
+def current_sites():
+    sites = {}
+    for rel, skip in CPP_FILES.items():
+        src = E.strip_comments(E.read(rel))
+        # preprocessor lines are not part of any definition
+        src = re.sub(r'^[ \t]*#[^\n]*$', '', src, flags=re.M)
+        for head, text, ln in cpp_definitions(src):
+            if any(head.startswith(s) or s in head for s in skip):
+                continue
+            for f, rx, rep in MASKS:
+                if f == rel:
+                    text = re.sub(rx, rep, text)
+            key = rel + '::' + head
+            k, c = key, 2
+            while k in sites:           # overloads with the same normalised header cannot happen; keep unique anyway
+                k = f'{key}#{c}'; c += 1
+            sites[k] = {'text': text, 'line': ln}
+    for rel, name, rx in HPP_SITES:
+        src = E.strip_comments(E.read(rel))
+        body, ln = body_of(src, rx, f'{rel}: {name}')
+        m = re.search(rx, src)
+        sites[rel + '::' + name] = {'text': norm(m.group(0)[:-1]) + norm(body), 'line': ln}
+    return sites
+
+
+def gen_c14_sites():
+    want = json.load(open(SITES_JSON))
+    have = current_sites()
+    bad, rows = [], []
+    for key in sorted(want):
+        got = have.get(key)
+        ok = got is not None and got['text'] == want[key]
+        rel, name = key.split('::', 1)
+        rows.append(f'  ("{rel.split("/")[-1]}", "{name[:90]}", {"true" if ok else "false"})')
+        if got is None:
+            bad.append(f'{key[:140]} (definition not found)')
+        elif not ok:
+            a, b = got['text'], want[key]
+            p = next((i for i in range(min(len(a), len(b))) if a[i] != b[i]), min(len(a), len(b)))
+            bad.append(f'{key[:100]} (line {got["line"]}: text differs at char {p}: now …{a[max(0, p - 30):p + 40]}… pinned …{b[max(0, p - 30):p + 40]}…)')
+    extra = sorted(k for k in have if k not in want)
+    for k in extra:
+        bad.append(f'{k[:140]} (new definition in a pinned file: not in the model)')
+    body = '/- GENERATED by tools/extract_c14.py — do not edit.  Definitions of the anchored sources the C14 model transcribes (file, definition, text unchanged). -/\n' \
+           'namespace AITB.Gen.C14Sites\n\ndef sites : List (String × String × Bool) := [\n' + ',\n'.join(rows) + '\n]\n\n' \
+           f'def pinned : Nat := {len(want)}\n\nend AITB.Gen.C14Sites\n'
+    E.write_if_changed('C14Sites', body)
+    if bad:
+        raise E.ExtractError('C14: source definitions the model transcribes have changed: ' + '; '.join(bad[:6]) + (f' … and {len(bad) - 6} more' if len(bad) > 6 else ''))
+
+
+GENERATORS = [gen_c14, gen_c14_sites]
+
+if __name__ == '__main__' and '--pin' in sys.argv:
+    sites = current_sites()
+    json.dump({k: v['text'] for k, v in sorted(sites.items())}, open(SITES_JSON, 'w'), indent=1)
+    print('pinned', len(sites), 'definitions')
